@@ -1,6 +1,6 @@
 import YaegiVerif.Proofs.C03Shift
-/- C03: one walk of the interpreter model agrees with the specification on every integer constant expression
-   that the specification accepts (structural induction). -/
+/- C03: one walk of the interpreter model has exactly the outcome of the specification on every integer constant
+   expression — the same value and type, or a compile error on both sides (structural induction). -/
 namespace YaegiVerif.Proofs.C03
 open YaegiVerif YaegiVerif.Const
 
@@ -22,18 +22,15 @@ def intShape : CExpr → Bool
   | .par x => intShape x
   | _ => false
 
-def goTyIs (i : Nat) (e : CExpr) (t : Ty) : Bool :=
-  match Spec.evalGo i e with
-  | .ok g => g.ty == t
-  | _ => false
-
-/-- no quotient of an untyped rune constant by an untyped integer constant (`'a' / 2`: yaegi types it int) -/
-def noRuneQuo (i : Nat) : CExpr → Bool
-  | .un _ x => noRuneQuo i x
-  | .bin a x y => noRuneQuo i x && noRuneQuo i y && !(a == .quo && goTyIs i x (.u .rune) && goTyIs i y (.u .int))
-  | .conv _ x => noRuneQuo i x
-  | .par x => noRuneQuo i x
-  | .len x => noRuneQuo i x
+/-- every integer literal of the tree has at most 512 bits (the toolchain refuses longer ones, the interpreter
+    does not: F03-21) -/
+def litBound : CExpr → Bool
+  | .int v => decide (bitLen v ≤ 512)
+  | .un _ x => litBound x
+  | .bin _ x y => litBound x && litBound y
+  | .conv _ x => litBound x
+  | .par x => litBound x
+  | .len x => litBound x
   | _ => true
 
 theorem isBoolAct_arith (a : Act) (h : (isArith a || isShift a) = true) : isBoolAct a = false := by
@@ -42,98 +39,155 @@ theorem isBoolAct_arith (a : Act) (h : (isArith a || isShift a) = true) : isBool
 theorem isBoolAct_unarith (a : Act) (h : isUnArith a = true) : isBoolAct a = false := by
   cases a <;> simp [isUnArith] at h <;> rfl
 
-theorem evalY_int_correct (env : Env) (hp2 : env.pass2 = false) :
-    ∀ e, intShape e = true → noRuneQuo env.iota e = true → ∀ gv, Spec.evalGo env.iota e = .ok gv →
-      ∃ n, evalY F0 env none e = .ok n ∧ Inv n gv := by
+theorem Rel.inv {r : Res NS} {g : Res Spec.GV} (h : Rel r g) :
+    (∃ n gv, r = .ok n ∧ g = .ok gv ∧ Inv n gv) ∨ (r = .reject ∧ g = .reject) := by
+  cases h with
+  | ok n gv hinv => exact Or.inl ⟨n, gv, rfl, rfl, hinv⟩
+  | rej => exact Or.inr ⟨rfl, rfl⟩
+
+theorem Rel.bind_un {r : Res NS} {g : Res Spec.GV} (h : Rel r g) (f : NS → Res NS) (f' : Spec.GV → Res Spec.GV)
+    (hf : ∀ n gv, Inv n gv → Rel (f n) (f' gv)) : Rel (r.bind f) (g.bind f') := by
+  cases h with
+  | ok n gv hinv => exact hf n gv hinv
+  | rej => exact .rej
+
+/-- **one walk, both directions** (first walk, nothing pushed down) -/
+theorem evalY_int_rel (env : Env) (hp2 : env.pass2 = false) :
+    ∀ e, intShape e = true → litBound e = true → Rel (evalY F0 env none e) (Spec.evalGo env.iota e) := by
   intro e
   induction e with
   | int v =>
-    intro _ _ gv hgo
-    simp only [Spec.evalGo] at hgo; injection hgo with hgo; subst hgo
-    exact ⟨{ rv := .c (.int v), ty := .u .int, fidx := true }, by simp [evalY],
-      Inv.of_untyped _ _ _ (Or.inl rfl) rfl rfl⟩
+    intro _ hl
+    have hb : ¬ (bitLen v > Spec.maxUntypedBits) := by
+      simp only [litBound, decide_eq_true_eq] at hl; simp only [Spec.maxUntypedBits]; omega
+    simp only [Spec.evalGo, if_neg hb, evalY]
+    exact .ok _ _ (Inv.of_untyped _ _ _ (Or.inl rfl) rfl rfl)
   | rune v =>
-    intro _ _ gv hgo
-    simp only [Spec.evalGo] at hgo; injection hgo with hgo; subst hgo
-    exact ⟨{ rv := .c (.int v), ty := .u .rune, fidx := true }, by simp [evalY],
-      Inv.of_untyped _ _ _ (Or.inr rfl) rfl rfl⟩
+    intro _ _
+    simp only [Spec.evalGo, evalY]
+    exact .ok _ _ (Inv.of_untyped _ _ _ (Or.inr rfl) rfl rfl)
   | iota =>
-    intro _ _ gv hgo
-    simp only [Spec.evalGo] at hgo; injection hgo with hgo; subst hgo
-    exact ⟨{ rv := .c (.int env.iota), ty := .u .int, fidx := true }, by simp [evalY],
-      Inv.of_untyped _ _ _ (Or.inl rfl) rfl rfl⟩
+    intro _ _
+    simp only [Spec.evalGo, evalY]
+    exact .ok _ _ (Inv.of_untyped _ _ _ (Or.inl rfl) rfl rfl)
   | flt q => intro h; simp [intShape] at h
   | bool b => intro h; simp [intShape] at h
   | str s => intro h; simp [intShape] at h
   | len x _ => intro h; simp [intShape] at h
   | par x ih =>
-    intro hs hq gv hgo
+    intro hs hl
     simp only [intShape] at hs
-    simp only [noRuneQuo] at hq
-    simp only [Spec.evalGo] at hgo
-    obtain ⟨n, hn, hinv⟩ := ih hs hq gv hgo
-    exact ⟨{ n with self := n.fidx && n.ty.untyped, inner := n.loose }, by simp [evalY, hn], hinv.1, hinv.2⟩
+    simp only [litBound] at hl
+    have h := ih hs hl
+    simp only [Spec.evalGo, evalY]
+    rcases h.inv with ⟨n, gv, hr, hg, hinv⟩ | ⟨hr, hg⟩
+    · rw [hr, hg]; exact .ok _ _ ⟨hinv.1, hinv.2⟩
+    · rw [hr, hg]; exact .rej
   | un a x ih =>
-    intro hs hq gv hgo
+    intro hs hl
     simp only [intShape, Bool.and_eq_true] at hs
-    simp only [noRuneQuo] at hq
-    simp only [Spec.evalGo] at hgo
-    obtain ⟨g0, hg0, hu⟩ := bind_eq_ok hgo
-    obtain ⟨c0, hc0, hinv⟩ := ih hs.2 hq g0 hg0
-    obtain ⟨n, hn, hi⟩ := unNode_correct a hs.1 c0 g0 gv hinv hu
-    exact ⟨n, by simp [evalY, isBoolAct_unarith a hs.1, hc0, hn], hi⟩
+    simp only [litBound] at hl
+    have h := ih hs.2 hl
+    have hnot : (a == Act.not) = false := by
+      have ha := hs.1
+      cases a <;> simp [isUnArith] at ha <;> rfl
+    simp only [Spec.evalGo, evalY, hnot, Bool.false_eq_true, if_false]
+    exact h.bind_un _ _ (fun n gv hinv => unNode_rel a hs.1 n gv hinv)
   | conv t x ih =>
-    intro hs hq gv hgo
+    intro hs hl
     cases t with
     | i k =>
       simp only [intShape] at hs
-      simp only [noRuneQuo] at hq
-      simp only [Spec.evalGo] at hgo
-      obtain ⟨g1, hg1, hc⟩ := bind_eq_ok hgo
-      obtain ⟨c1, hc1, hinv⟩ := ih hs hq g1 hg1
-      obtain ⟨n, hn, hi⟩ := convNode_correct k c1 g1 gv hinv hc
-      exact ⟨n, by simp [evalY, hp2, hc1, hn], hi⟩
+      simp only [litBound] at hl
+      have h := ih hs hl
+      simp only [Spec.evalGo, evalY, hp2, Bool.false_and, Bool.false_eq_true, if_false]
+      exact h.bind_un _ _ (fun n gv hinv => convNode_rel k n gv hinv)
     | f32 => simp [intShape] at hs
     | f64 => simp [intShape] at hs
     | bool => simp [intShape] at hs
     | str => simp [intShape] at hs
   | bin a x y ihx ihy =>
-    intro hs hq gv hgo
+    intro hs hl
     simp only [intShape, Bool.and_eq_true] at hs
-    simp only [noRuneQuo, Bool.and_eq_true, Bool.not_eq_true'] at hq
-    obtain ⟨⟨hqx, hqy⟩, hqa⟩ := hq
-    simp only [Spec.evalGo] at hgo
-    obtain ⟨g0, hg0, hgo⟩ := bind_eq_ok hgo
-    obtain ⟨g1, hg1, hgo⟩ := bind_eq_ok hgo
-    obtain ⟨c0, hc0, hi0⟩ := ihx hs.1.2 hqx g0 hg0
-    obtain ⟨c1, hc1, hi1⟩ := ihy hs.2 hqy g1 hg1
-    have hnb := isBoolAct_arith a hs.1.1
-    by_cases hsh : isShift a = true
-    · have hcond : (a == .shl || a == .shr) = true := by simpa [isShift] using hsh
-      rw [if_pos hcond] at hgo
-      obtain ⟨n, hn, hi⟩ := shiftNode_correct env a hsh c0 c1 g0 g1 gv hi0 hi1 hgo
-      have hsa : isShiftAct a = true := by simpa [isShiftAct, isShift] using hsh
-      exact ⟨n, by simp [evalY, hnb, hc0, hc1, hsa, hn], hi⟩
-    · have har : isArith a = true := by
-        have h := hs.1.1
-        rw [Bool.or_eq_true] at h
-        rcases h with h | h
-        · exact h
-        · exact absurd h hsh
-      have hcond : ¬ ((a == .shl || a == .shr) = true) := by simpa [isShift] using hsh
-      rw [if_neg hcond] at hgo
-      have hgo' : ((Spec.matchTypes g0 g1).bind fun x => Spec.arithGo a x.1 x.2.1 x.2.2) = .ok gv := by
-        obtain ⟨⟨u, v, t⟩, hm, hrest⟩ := bind_eq_ok hgo
-        rw [hm]
-        have hcmp : Spec.isCmp a = false := by cases a <;> simp [isArith] at har <;> rfl
-        have hland : (a == .land || a == .lor) = false := by cases a <;> simp [isArith] at har <;> rfl
-        simpa [hcmp, hland] using hrest
-      have hq' : a = .quo → ¬ (g0.ty = .u .rune ∧ g1.ty = .u .int) := by
-        intro haq ⟨h1, h2⟩
-        subst haq
-        simp [goTyIs, hg0, hg1, h1, h2] at hqa
-      obtain ⟨n, hn, hi⟩ := binNode_correct env a har c0 c1 g0 g1 gv hi0 hi1 hq' hgo'
-      have hsa : isShiftAct a = false := by simpa [isShiftAct, isShift] using hsh
-      exact ⟨n, by simp [evalY, hnb, hc0, hc1, hsa, hn, hp2], hi⟩
+    simp only [litBound, Bool.and_eq_true] at hl
+    have hx := ihx hs.1.2 hl.1
+    have hy := ihy hs.2 hl.2
+    have hcl : (isCmpAct a || isLogicAct a) = false := by
+      have ha := hs.1.1
+      cases a <;> simp [isArith, isShift] at ha <;> rfl
+    simp only [Spec.evalGo, evalY, hcl, Bool.false_eq_true, if_false]
+    rcases hx.inv with ⟨c0, g0, hx0, hg0, i0⟩ | ⟨hx0, hg0⟩
+    · rw [hx0, hg0]
+      simp only [bind_ok]
+      rcases hy.inv with ⟨c1, g1, hy1, hg1, i1⟩ | ⟨hy1, hg1⟩
+      · rw [hy1, hg1]
+        simp only [bind_ok]
+        by_cases hsh : isShift a = true
+        · have hcond : (a == .shl || a == .shr) = true := by simpa [isShift] using hsh
+          have hsa : isShiftAct a = true := by simpa [isShiftAct, isShift] using hsh
+          simp only [hcond, hsa, if_true]
+          exact shiftNode_rel env a hsh c0 c1 g0 g1 i0 i1
+        · have har : isArith a = true := by
+            have h := hs.1.1
+            rw [Bool.or_eq_true] at h
+            rcases h with h | h
+            · exact h
+            · exact absurd h hsh
+          have hcond : (a == .shl || a == .shr) = false := by simpa [isShift] using hsh
+          have hsa : isShiftAct a = false := by simpa [isShiftAct, isShift] using hsh
+          have hcmp : Spec.isCmp a = false := by cases a <;> simp [isArith] at har <;> rfl
+          have hland : (a == .land || a == .lor) = false := by cases a <;> simp [isArith] at har <;> rfl
+          simp only [hcond, hsa, hp2, Bool.false_and, Bool.false_eq_true, if_false]
+          have hgo : ((Spec.matchTypes g0 g1).bind fun x =>
+              if Spec.isCmp a = true then
+                (if ((a == .eq || a == .ne) || Spec.isNumTy x.2.2 || Spec.isStrTy x.2.2) = true then Spec.cmpGo a x.1 x.2.1 else .reject)
+              else if (a == .land || a == .lor) = true then
+                (match x.1, x.2.1 with
+                 | .bool b, .bool c => .ok ⟨.bool (if (a == .land) = true then b && c else b || c), x.2.2⟩
+                 | _, _ => .reject)
+              else Spec.arithGo a x.1 x.2.1 x.2.2) =
+              ((Spec.matchTypes g0 g1).bind fun x => Spec.arithGo a x.1 x.2.1 x.2.2) := by
+            simp only [hcmp, hland, Bool.false_eq_true, if_false]
+          have := binNode_rel env a har c0 c1 g0 g1 i0 i1
+          simpa only [hcmp, hland, Bool.false_eq_true, if_false] using this
+      · rw [hy1, hg1]; exact .rej
+    · rw [hx0, hg0]; exact .rej
+
+/-- the accepting direction, as the declaration theorems use it -/
+theorem evalY_int_correct (env : Env) (hp2 : env.pass2 = false) (e : CExpr) (hs : intShape e = true)
+    (hl : litBound e = true) (gv : Spec.GV) (hgo : Spec.evalGo env.iota e = .ok gv) :
+    ∃ n, evalY F0 env none e = .ok n ∧ Inv n gv := by
+  have h := evalY_int_rel env hp2 e hs hl
+  rw [hgo] at h
+  cases hy : evalY F0 env none e with
+  | ok n =>
+    rw [hy] at h
+    rcases h.inv with ⟨n', gv', hr, hg, hinv⟩ | ⟨hr, _⟩
+    · injection hr with hr; injection hg with hg; subst hr hg; exact ⟨n, rfl, hinv⟩
+    · cases hr
+  | reject => rw [hy] at h; rcases h.inv with ⟨_, _, hr, _, _⟩ | ⟨_, hg⟩ <;> first | cases hr | cases hg
+  | crash => rw [hy] at h; rcases h.inv with ⟨_, _, hr, _, _⟩ | ⟨hr, _⟩ <;> cases hr
+  | unm w => rw [hy] at h; rcases h.inv with ⟨_, _, hr, _, _⟩ | ⟨hr, _⟩ <;> cases hr
+
+/-- the rejecting direction -/
+theorem evalY_int_reject (env : Env) (hp2 : env.pass2 = false) (e : CExpr) (hs : intShape e = true)
+    (hl : litBound e = true) (hgo : Spec.evalGo env.iota e = .reject) : evalY F0 env none e = .reject := by
+  have h := evalY_int_rel env hp2 e hs hl
+  rw [hgo] at h
+  cases hy : evalY F0 env none e with
+  | ok n => rw [hy] at h; rcases h.inv with ⟨_, _, _, hg, _⟩ | ⟨hr, _⟩ <;> first | cases hg | cases hr
+  | reject => rfl
+  | crash => rw [hy] at h; rcases h.inv with ⟨_, _, hr, _, _⟩ | ⟨hr, _⟩ <;> cases hr
+  | unm w => rw [hy] at h; rcases h.inv with ⟨_, _, hr, _, _⟩ | ⟨hr, _⟩ <;> cases hr
+
+/-- the specification never crashes and is total on the model's terms: it answers a value or a rejection -/
+theorem evalGo_int_total (env : Env) (hp2 : env.pass2 = false) (e : CExpr) (hs : intShape e = true)
+    (hl : litBound e = true) : (∃ gv, Spec.evalGo env.iota e = .ok gv) ∨ Spec.evalGo env.iota e = .reject := by
+  have h := evalY_int_rel env hp2 e hs hl
+  cases h' : Spec.evalGo env.iota e with
+  | ok gv => exact Or.inl ⟨gv, rfl⟩
+  | reject => exact Or.inr rfl
+  | crash => rw [h'] at h; rcases h.inv with ⟨_, _, _, hg, _⟩ | ⟨_, hg⟩ <;> cases hg
+  | unm w => rw [h'] at h; rcases h.inv with ⟨_, _, _, hg, _⟩ | ⟨_, hg⟩ <;> cases hg
 
 end YaegiVerif.Proofs.C03
